@@ -60,6 +60,31 @@ pub(super) fn validate_type_conditions(
                 )));
             }
         }
+        TypeId::Object(object_id) => {
+            // On an object, only the interfaces it implements and the unions it
+            // belongs to can apply (the object type itself was handled above).
+            let applies = match selected_type {
+                TypeId::Interface(interface_id) => query
+                    .schema
+                    .get_object(object_id)
+                    .implements_interfaces
+                    .contains(&interface_id),
+                TypeId::Union(union_id) => query
+                    .schema
+                    .get_union(union_id)
+                    .variants
+                    .contains(&parent_schema_type_id),
+                _ => false,
+            };
+
+            if !applies {
+                return Err(QueryValidationError::new(format!(
+                    "The spread {}... on {} is not valid.",
+                    parent_schema_type_id.name(query.schema),
+                    selected_type.name(query.schema),
+                )));
+            }
+        }
         _ => (),
     }
 
